@@ -54,7 +54,10 @@ GEN_ITEMS = ["lab", "call", "set", "usevar", "ifused", "ifnused", "ifdef", "macr
              "float", "ifexist", "reptexist", "strfn",
              # text substitution that starts in the middle of the file (#define, used at the head of the golden
              # programs t_870c / t_f2mc16): state of one pass that must not reach the next one
-             "define"]
+             "define",
+             # a few hundred INCLUDE executions per run (over all passes): whatever is booked per inclusion must be
+             # given back independently of the include list option
+             "manyinc"]
 
 
 def render_gen(items):
@@ -65,6 +68,7 @@ def render_gen(items):
     nl = len(labs)
     mac = False
     defd = False
+    incd = False
     sec = 0
     for i, it in enumerate(items):
         k = it[0]
@@ -116,6 +120,10 @@ def render_gen(items):
                 defd = True
             else:
                 L += ["\tld b,%d" % (a & 127), "\tld a,d"]
+        elif k == "manyinc":
+            if not incd:
+                L += ["\trept %d" % (100 + a % 60), "\tinclude \"gi.inc\"", "\tendm"]
+                incd = True
         elif k == "float":
             L.append("\t%s %s" % (["dd", "dq", "dq", "dd"][a % 4],
                                    ["1e-310", "4.94e-324,2e-320", "1.0e308,1e-308", "1e-45,1.5"][a % 4]))
@@ -264,7 +272,8 @@ def one_run(t, case, toks, d, tag):
 def program_of(case):
     if "gen" in case:
         src = render_gen(case["gen"]).encode("latin-1")
-        return dict(name="g" + engine.digest(src)[:8], src=src, ori=None, flags=[], extra={})
+        extra = {"gi.inc": b"\tdb var&255\nvar\tset var+1\n"} if any(it[0] == "manyinc" for it in case["gen"]) else {}
+        return dict(name="g" + engine.digest(src)[:8], src=src, ori=None, flags=[], extra=extra)
     if case.get("var"):
         return variants.load(case["test"], case["var"])
     return corpus.load(case["test"])
